@@ -49,6 +49,10 @@ func (x *xtr) assigned(stmts []ast.Stmt, declared, out map[string]bool) {
 				if inPlaceCalls[selName(c.Fun)] && len(c.Args) > 0 {
 					mark(lvalueBase(c.Args[0]))
 				}
+				// a mutating method of an opaque value held in a struct field changes the struct
+				if se, ok := c.Fun.(*ast.SelectorExpr); ok && x.mutMethodName(se.Sel.Name) {
+					mark(lvalueBase(se.X))
+				}
 			}
 			return true
 		})
@@ -185,8 +189,17 @@ func (x *xtr) references(nodes ...ast.Node) map[string]bool {
 	walk = func(n ast.Node) bool {
 		switch t := n.(type) {
 		case *ast.SelectorExpr:
+			for _, m := range x.methods { // the abstract method parameters a call may stand for
+				if m.ft != nil && strings.HasSuffix(m.lean, "_"+t.Sel.Name) {
+					r[m.lean] = true
+				}
+			}
 			ast.Inspect(t.X, walk)
 			return false
+		case *ast.CallExpr:
+			if isIdent(t.Fun, "append") && x.env["growCap"] != nil {
+				r["growCap"] = true
+			}
 		case *ast.KeyValueExpr:
 			ast.Inspect(t.Value, walk)
 			return false
@@ -385,6 +398,17 @@ func (x *xtr) ifStmt(t *ast.IfStmt, rest func() string) string {
 		}
 		x.bad(t, "if with an init statement (only `if err := bucket.Put(k, v); err != nil { … return … }`)")
 	}
+	if pre, ok := x.mutCond(t); ok {
+		// `if s.f.M(args) {` with a mutating method M of the opaque field f: the call first, then the test
+		c := *t
+		c.Cond = &ast.Ident{Name: "c_", NamePos: t.Cond.Pos()}
+		saved := x.env
+		x.env = copyEnv(saved)
+		x.env["c_"] = tBoolx
+		r := joinLines(pre, x.ifStmt(&c, func() string { delete(x.env, "c_"); return rest() }))
+		x.env = saved
+		return r
+	}
 	cond := x.boolExpr(t.Cond)
 	var elseList []ast.Stmt
 	if t.Else != nil {
@@ -430,6 +454,51 @@ func (x *xtr) ifStmt(t *ast.IfStmt, rest func() string) string {
 	return joinLines(fmt.Sprintf("let %s : %s :=\n  if %s then\n%s\n  else\n%s", tuple, x.tupleType(names), cond, indent(thenS, 2), indent(elseS, 2)), rest())
 }
 
+func (x *xtr) mutMethodName(name string) bool {
+	for _, m := range x.methods {
+		if m.mut && strings.HasSuffix(m.lean, "_"+name) {
+			return true
+		}
+	}
+	return false
+}
+
+// the condition `v.f.M(args)` where f is an opaque field of the struct variable v and M one of its
+// mutating methods (spec.Methods "T.M=mut func(..) bool"): the text that performs the call, binding c_
+func (x *xtr) mutCond(t *ast.IfStmt) (string, bool) {
+	c, ok := t.Cond.(*ast.CallExpr)
+	if !ok {
+		return "", false
+	}
+	se, ok := c.Fun.(*ast.SelectorExpr)
+	if !ok || !x.mutMethodName(se.Sel.Name) {
+		return "", false
+	}
+	fe, ok := se.X.(*ast.SelectorExpr)
+	if !ok {
+		x.bad(c, "mutating method call on something that is not a field of a struct variable")
+	}
+	id, ok := fe.X.(*ast.Ident)
+	if !ok || x.env[id.Name] == nil || x.env[id.Name].k != kStruct {
+		x.bad(c, "mutating method call on something that is not a field of a struct variable")
+	}
+	if x.ptrParams[id.Name] {
+		x.bad(c, "mutation through the pointer parameter %s (visible to the caller)", id.Name)
+	}
+	sty := x.env[id.Name]
+	fty := x.structs[sty.name].field(fe.Sel.Name)
+	if fty == nil || fty.k != kOpaque {
+		x.bad(c, "mutating method call on the field %s, which is not of an opaque type", fe.Sel.Name)
+	}
+	m, ok := x.methods[fty.name+"."+se.Sel.Name]
+	if !ok || !m.mut || len(m.ft.results) != 1 || m.ft.results[0].k != kBool {
+		x.bad(c, "%s.%s is not a mutating method with one bool result (spec.Methods)", fty.name, se.Sel.Name)
+	}
+	call := x.applyFn(c, m.lean+" "+paren(ident(id.Name))+"."+ident(fe.Sel.Name), m.ft)
+	return fmt.Sprintf("let (c_, s_) : Bool × %s := %s\nlet %s : %s := { %s with %s := s_ }", fty.lean(), call,
+		ident(id.Name), sty.lean(), ident(id.Name), ident(fe.Sel.Name)), true
+}
+
 // ---- assignments
 
 func (x *xtr) noteAlias(lhs string, rhs ast.Expr, ty *xty) {
@@ -439,6 +508,13 @@ func (x *xtr) noteAlias(lhs string, rhs ast.Expr, ty *xty) {
 	src := rhs
 	if se, ok := rhs.(*ast.SliceExpr); ok {
 		src = se.X
+	}
+	if se, ok := src.(*ast.SelectorExpr); ok {
+		// b := s.f / b := s.f[i:j]: b and the field share a backing array
+		if base := lvalueBase(se); base != "" && x.env[base] != nil {
+			x.shared[lhs] = true
+			x.shared[exprText(se)] = true
+		}
 	}
 	if id, ok := src.(*ast.Ident); ok && id.Name != lhs {
 		if _, isVar := x.env[id.Name]; isVar {
@@ -461,6 +537,15 @@ func (x *xtr) assign(t *ast.AssignStmt) string {
 		// parallel assignment: all right-hand sides are evaluated first
 		if t.Tok != token.DEFINE && t.Tok != token.ASSIGN {
 			x.bad(t, "parallel assignment operator")
+		}
+		allIdents := true
+		for _, l := range t.Lhs {
+			if _, ok := l.(*ast.Ident); !ok {
+				allIdents = false
+			}
+		}
+		if !allIdents {
+			return x.parallelStore(t)
 		}
 		var names, tys, vals []string
 		var decl []func()
@@ -549,8 +634,27 @@ func (x *xtr) assign(t *ast.AssignStmt) string {
 		if fty == nil {
 			x.bad(t, "field %s of %s is not modelled (spec)", l.Sel.Name, sty.name)
 		}
+		if x.structs[sty.name].caps[l.Sel.Name] {
+			// the capacity of this field is modelled: only `s.f = append(s.f, ..)` may assign it; the
+			// capacity stays when the new length fits, else it is whatever the run time chooses (growCap)
+			ap, ok := rhs.(*ast.CallExpr)
+			if !ok || t.Tok != token.ASSIGN || !isIdent(ap.Fun, "append") || len(ap.Args) < 1 || exprText(ap.Args[0]) != exprText(l) {
+				x.bad(t, "assignment to %s.%s, whose capacity is modelled, that is not `%s = append(%s, ..)`", id.Name, l.Sel.Name, exprText(l), exprText(l))
+			}
+			if x.env["growCap"] == nil {
+				x.bad(t, "append to a field with modelled capacity needs the parameter growCap (spec.Prims)")
+			}
+			x.usesRtX = true
+			cp := ident(l.Sel.Name + "_cap")
+			return fmt.Sprintf("let %s : %s :=\n  let v_ : %s := %s\n  { %s with %s := v_, %s := Go.capAppend growCap %s.%s (Go.len v_) }", ident(id.Name), sty.lean(), fty.lean(), value(nil, fty),
+				ident(id.Name), ident(l.Sel.Name), cp, paren(ident(id.Name)), cp)
+		}
 		return fmt.Sprintf("let %s : %s := { %s with %s := %s }", ident(id.Name), sty.lean(), ident(id.Name), ident(l.Sel.Name), value(nil, fty))
 	case *ast.IndexExpr:
+		if fe, ok := l.X.(*ast.SelectorExpr); ok {
+			// s.f[i] = v
+			return x.storeFieldElem(t, fe, l.Index, func(ety *xty) string { return value(nil, ety) })
+		}
 		id, ok := l.X.(*ast.Ident)
 		if !ok {
 			x.bad(t, "assignment target")
@@ -573,6 +677,87 @@ func (x *xtr) assign(t *ast.AssignStmt) string {
 	}
 	x.bad(t, "assignment target %T", lhs)
 	return ""
+}
+
+// s.f[i] = v for a slice field f of the struct variable s
+func (x *xtr) storeFieldElem(n ast.Node, fe *ast.SelectorExpr, index ast.Expr, value func(ety *xty) string) string {
+	id, ok := fe.X.(*ast.Ident)
+	if !ok || x.env[id.Name] == nil || x.env[id.Name].k != kStruct {
+		x.bad(n, "element assignment target")
+	}
+	if x.ptrParams[id.Name] {
+		x.bad(n, "assignment through the pointer parameter %s (visible to the caller)", id.Name)
+	}
+	sty := x.env[id.Name]
+	fty := x.structs[sty.name].field(fe.Sel.Name)
+	if fty == nil || fty.k != kList {
+		x.bad(n, "element assignment to the field %s of %s, which is not a modelled slice", fe.Sel.Name, sty.name)
+	}
+	if x.shared[exprText(fe)] {
+		x.bad(n, "element assignment to %s, which may share its backing array with another variable", exprText(fe))
+	}
+	i := x.intExpr(index)
+	return fmt.Sprintf("let %s : %s := { %s with %s := Go.setI %s.%s %s %s }", ident(id.Name), sty.lean(), ident(id.Name), ident(fe.Sel.Name),
+		paren(ident(id.Name)), ident(fe.Sel.Name), paren(i), paren(value(fty.elem)))
+}
+
+// a[i], b[j] = e1, e2 (targets: variables, elements of slice variables, elements of slice fields):
+// all right-hand sides (and, in Go, the index operands) are evaluated first, then the stores run left to right
+func (x *xtr) parallelStore(t *ast.AssignStmt) string {
+	if t.Tok != token.ASSIGN {
+		x.bad(t, "parallel assignment operator")
+	}
+	bases := map[string]bool{}
+	for _, l := range t.Lhs {
+		bases[lvalueBase(l)] = true
+	}
+	var tmps, tys, vals []string
+	var etys []*xty
+	for i, l := range t.Lhs {
+		var ety *xty
+		switch lt := l.(type) {
+		case *ast.Ident:
+			ety = x.env[lt.Name]
+		case *ast.IndexExpr:
+			for b := range bases {
+				if b != "" && x.mentions(lt.Index, b) {
+					x.bad(l, "an index operand of a parallel assignment mentions the assigned variable %s", b)
+				}
+			}
+			if b := x.expr(lt.X); b.ty.k == kList {
+				ety = b.ty.elem
+			}
+		}
+		if ety == nil {
+			x.bad(l, "parallel assignment target")
+		}
+		etys = append(etys, ety)
+		tmps = append(tmps, fmt.Sprintf("t%d_", i))
+		tys = append(tys, parenT(ety.lean()))
+		vals = append(vals, x.co(t.Rhs[i], x.expr(t.Rhs[i]), ety))
+	}
+	lines := []string{fmt.Sprintf("let (%s) : %s := (%s)", strings.Join(tmps, ", "), strings.Join(tys, " × "), strings.Join(vals, ", "))}
+	for i, l := range t.Lhs {
+		tmp := tmps[i]
+		switch lt := l.(type) {
+		case *ast.Ident:
+			lines = append(lines, fmt.Sprintf("let %s : %s := %s", ident(lt.Name), etys[i].lean(), tmp))
+		case *ast.IndexExpr:
+			if fe, ok := lt.X.(*ast.SelectorExpr); ok {
+				lines = append(lines, x.storeFieldElem(t, fe, lt.Index, func(*xty) string { return tmp }))
+				continue
+			}
+			id, ok := lt.X.(*ast.Ident)
+			if !ok || x.env[id.Name] == nil || x.env[id.Name].k != kList {
+				x.bad(l, "parallel assignment target")
+			}
+			if x.shared[id.Name] {
+				x.bad(t, "element assignment to %s, which may share its backing array with another variable", id.Name)
+			}
+			lines = append(lines, fmt.Sprintf("let %s : %s := Go.setI %s %s %s", ident(id.Name), x.env[id.Name].lean(), ident(id.Name), paren(x.intExpr(lt.Index)), tmp))
+		}
+	}
+	return strings.Join(lines, "\n")
 }
 
 // a, b := <one expression with two results>
@@ -916,7 +1101,11 @@ func (x *xtr) retValue(s *ast.ReturnStmt) string {
 	} else {
 		v = tuple(s.Results, rs)
 	}
-	for _, ex := range x.extras {
+	for i, ex := range x.extras {
+		if i == 0 && len(rs) == 0 {
+			v = ident(ex) // no results: the returned value is the state alone
+			continue
+		}
 		v = "(" + v + ", " + ident(ex) + ")"
 	}
 	return v
